@@ -1,0 +1,5 @@
+//go:build !verif
+
+package resolver
+
+func verifVisit(string) {}
